@@ -61,9 +61,9 @@ def family_codec(c, thorough):
     gen = mc_codec(c, 1, shards=3, liveness=False)
     drv = c.build_driver("codec", race=True)
     pool = [g for g in gen if TBL[g["m"]]["family"] != "ENV"]
-    cases = [dict(k="dec", entry="plain", inp=g["inp"]) for g in rng.sample(pool, min(len(pool), 350 if not thorough else 2000))]
+    cases = [dict(k="dec", entry="plain", inp=g["inp"]) for g in rng.sample(pool, min(len(pool), 350 if not thorough else 1500))]
     wants = [(g["m"], g["w"]) for g in pool if g["g"]]
-    cases += [dict(k="rt", m=m, mand=w["mand"], opt=w["opt"], via="plain") for m, w in rng.sample(wants, min(len(wants), 150 if not thorough else 700))]
+    cases += [dict(k="rt", m=m, mand=w["mand"], opt=w["opt"], via="plain") for m, w in rng.sample(wants, min(len(wants), 150 if not thorough else 500))]
     rng.shuffle(cases)
     cp = os.path.join(c.scratch, "c19-codec-cases.ndjson")
     with open(cp, "w") as f:
@@ -312,7 +312,7 @@ def family_others(c, thorough, fams, pools, drv):
         plans = {}
         for f in fams:
             rng = random.Random("%d/%s/%s" % (c.seed, f.name, tag))
-            plans[f.name] = f.plan(pools[f.name]["pool"], rng, 1 if f.name in ("f06", "f07") else scale, wide=(n == 2))
+            plans[f.name] = f.plan(pools[f.name]["pool"], rng, 1 if f.name in ("f06", "f07", "f09") else scale, wide=(n == 2))
         if first:
             first = False
             drifted = drift_guard(c, drv, fams, pools, plans, c.sub("drift"))
